@@ -49,10 +49,11 @@ var c11CuratedFamilies = []c11Family{
 	{ // regex type and a named enum rule
 		Types: []lib.TypeDef{
 			{Name: "@code", Text: "/^(foo|bar|ba[a-z]{1,3})$/", Regex: true},
-			{Name: "@kind", Text: "\"a\" // {enum: \"@letters\"}"},
+			{Name: "@kind", Text: "\"a\" // {enum: @letters}"},
 		},
-		Rules: []lib.RuleDef{{Name: "@letters", Text: "[\"a\", \"b\", \"c\"]"}},
-		Roots: []c11Root{{Text: "{\n  \"code\": @code,\n  \"kind\": @kind\n}"}, {Text: "@code"}, {Text: "{\n  @code: 1\n}"}},
+		Rules: []lib.RuleDef{{Name: "@letters", Text: "[\n  // vowels\n  \"a\", // first\n  // consonants\n  \"b\",\n  \"c\"\n]"}},
+		Roots: []c11Root{{Text: "{\n  \"code\": @code,\n  \"kind\": @kind\n}"}, {Text: "@code"}, {Text: "{\n  @code: 1\n}"},
+			{Text: "\"b\" // {enum: @letters}"}, {Text: "[\n  \"c\" // {enum: @letters}\n]"}},
 	},
 	{ // or, inline rule sets (unnamed types), optional recursion
 		Types: []lib.TypeDef{
@@ -444,6 +445,9 @@ var c11ExhPools = []c11ExhPool{
 		Families: []c11Family{{Types: c11CuratedFamilies[1].Types, Rules: c11CuratedFamilies[1].Rules, Roots: c11CuratedFamilies[1].Roots[:2]}},
 		Docs:     []c11Doc{{Text: `"bar"`}},
 		Regexes:  []string{`/^(foo|bar|ba[a-z]{1,3})$/`}}},
+	{"two roots referencing one named enum rule (with interline comments) directly", c11Pool{
+		Families: []c11Family{{Rules: c11CuratedFamilies[1].Rules, Roots: c11CuratedFamilies[1].Roots[3:5]}},
+		Docs:     []c11Doc{{Text: `"b"`}}}},
 	{"unrelated roots + an enum", c11Pool{
 		Families: []c11Family{{Roots: []c11Root{c11CuratedFamilies[4].Roots[0], c11CuratedFamilies[4].Roots[4]}}},
 		Docs:     []c11Doc{{Text: `{"id": 1, "tags": ["a", "b"], "opt": 1.5}`}},
@@ -699,11 +703,38 @@ func c11GenOrderCase(r *mon.Rng) *c11OrderCase {
 		et := c11GenEnumText(r)
 		first := strings.TrimSpace(strings.SplitN(strings.Trim(et, "[]\n "), ",", 2)[0])
 		oc.Fam = c11Family{Rules: []lib.RuleDef{{Name: "@e", Text: et}},
-			Types: []lib.TypeDef{{Name: "@t", Text: first + " // {enum: \"@e\"}"}},
-			Roots: []c11Root{{Text: first + " // {enum: \"@e\"}"}, {Text: "[@t]"}}}
+			Types: []lib.TypeDef{{Name: "@t", Text: first + " // {enum: @e}"}},
+			Roots: []c11Root{{Text: first + " // {enum: @e}"}, {Text: "[@t]"}}}
 		for _, i := range r.Perm(len(c11EnumLiterals))[:6] {
 			oc.Docs = append(oc.Docs, c11EnumLiterals[i], "["+c11EnumLiterals[i]+"]")
 		}
+		return oc
+	}
+	if r.Chance(1, 6) {
+		// several independent faults reachable from ONE object: which one is reported (code and
+		// position) must not depend on any iteration order. Each property starts its own
+		// illegal recursion / refers to its own missing type.
+		n := r.Range(2, 4)
+		keys := []string{"owner", "parent", "alpha", "zeta", "mid"}
+		mon.Shuffle(r, keys)
+		var props []string
+		family := r.Intn(3) // all direct recursion / all recursion through a union / all missing
+		for i := 0; i < n; i++ {
+			name := fmt.Sprintf("@p%d", i)
+			switch family {
+			case 0:
+				// every type has its own layout, so the positions of the errors differ too
+				oc.Fam.Types = append(oc.Fam.Types, lib.TypeDef{Name: name, Text: "{\n" + strings.Repeat(" ", i) + "  \"n\": " + name + "\n}"})
+			case 1:
+				oc.Fam.Types = append(oc.Fam.Types, lib.TypeDef{Name: name, Text: "{\n  \"n\": " + name + " | " + name + "x\n}"},
+					lib.TypeDef{Name: name + "x", Text: "{\n  \"m\": " + name + "\n}"})
+			default:
+				// missing type: nothing added
+			}
+			props = append(props, fmt.Sprintf("  %q: %s", keys[i], name))
+		}
+		oc.Fam.Roots = []c11Root{{Text: "{\n" + strings.Join(props, ",\n") + "\n}"}}
+		oc.Docs = []string{`{}`, `{"owner": {}, "parent": {}}`}
 		return oc
 	}
 	var s *model.Schema
